@@ -100,7 +100,15 @@ def _strategy(draw):
         opts["grid"] = draw(st.permutations(lattice))[:npts]
     if draw(st.booleans()):
         opts["nrewind"] = draw(st.integers(1, 5))
-    if box[0] == box[1] == box[2] and draw(st.integers(0, 3)) == 0:
+    if "grid" not in opts and draw(st.integers(0, 3)) == 0:
+        # part of the system comes with coordinates: the first built residue of a partly supplied chain is
+        # grown from a supplied one, at the same step length as everywhere else
+        from . import c03
+        total = sum(cnt * len(by_name[name]["residues"]) for name, cnt in spec["molecules"])
+        if total >= 2:
+            spec["coords"] = draw(c03.supplied_coords(spec, box, mode=draw(st.sampled_from(["c", "mc"])),
+                                                      nres=draw(st.integers(1, total - 1))))
+    if box[0] == box[1] == box[2] and not spec.get("coords") and draw(st.integers(0, 3)) == 0:
         # the same cubic box requested through the density instead of -box
         opts["density"] = gc.total_mass(spec) * 1.660541 / box[0] ** 3
         opts["box"] = None
@@ -122,6 +130,8 @@ def check(spec, ctx):
     if spec.get("fill"):
         spec = _fill(spec)
         ctx.label("second_neighbour_tree")
+    elif spec.get("coords"):
+        ctx.label("partly_supplied")
     opts = spec["opts"]
     sf = opts.get("step_fudge", 1.0)
     max_force = opts.get("max_force", 5e4)
